@@ -169,6 +169,9 @@ Definition dir_guard15 (e : env) (fuel : nat) (jobs : list job) (jb : job) (to_d
        | SFunc _ =>
            (* K_map_ctor_func_nil_receiver: FromX evaluates the mapper method on its (possibly nil) receiver *)
            (to_dir || negb (al_ctor w))
+           (* K_map_ctor_func_last: with several methods of one signature the constructor takes the LAST, the passes the first *)
+           && (negb (al_ctor w)
+               || Nat.leb (length (filter (fun fn => type_equals (mf_param fn) rt && type_equals (mf_result fn) wt) (j_funcs jb))) 1)
            (* K_map_ctor_priority: constructors prefer assignment/conversion to the mapper method *)
            && (negb (al_ctor w) || negb (applicable_b e (j_funcs jb) to_dir rt wt SAssign
                                      || applicable_b e (j_funcs jb) to_dir rt wt (SConv rt wt)))
